@@ -1054,26 +1054,30 @@ fn state_two_senders() {
         .iter()
         .map(|&v| {
             let tx = tx.clone();
-            let rx = rx.clone();
             spawn(move || {
                 assert!(tx.send(v).is_ok(), "C13: send on an open channel failed");
-                rx.try_receive(StateId::new()).expect("C13: try_receive(StateId::new()) returned None after a send had completed")
             })
         })
         .collect();
-    let seen: Vec<(StateId, u32)> = hs.into_iter().map(|h| h.join().unwrap()).collect();
+    // a follower that waits for the first publication it can get: it may end up holding the id
+    // of the older of the two states
+    let rxf = rx.clone();
+    let hf = spawn(move || loom::future::block_on(async { rxf.receive(StateId::new()).await }).expect("C13: receive on an open channel yielded None"));
+    for h in hs {
+        h.join().unwrap();
+    }
+    let seen = hf.join().unwrap();
     let (latest_id, latest_v) = rx.try_receive(StateId::new()).expect("C13: nothing published after two sends");
     assert!(rx.try_receive(latest_id).is_none(), "C13: try_receive(latest id) yields a state");
-    for (id, v) in seen {
-        assert!(id <= latest_id, "C13: an id observed earlier is larger than the latest one");
-        if id < latest_id {
-            match rx.try_receive(id) {
-                Some((nid, nv)) => assert!(nid == latest_id && nv == latest_v, "C13: try_receive(older id) did not yield the latest state"),
-                None => panic!("C13: try_receive returned None for id {:?} although state {:?} (value {}) is published", id, latest_id, latest_v),
-            }
-        } else {
-            assert_eq!(v, latest_v, "C13: two different values under the same id");
+    let (id, v) = seen;
+    assert!(id <= latest_id, "C13: an id observed earlier is larger than the latest one");
+    if id < latest_id {
+        match rx.try_receive(id) {
+            Some((nid, nv)) => assert!(nid == latest_id && nv == latest_v, "C13: try_receive(older id) did not yield the latest state"),
+            None => panic!("C13: try_receive returned None for id {:?} although state {:?} (value {}) is published and both sends have returned", id, latest_id, latest_v),
         }
+    } else {
+        assert_eq!(v, latest_v, "C13: two different values under the same id");
     }
     epilogue_state_shared(&tx, &rx, 300);
 }
@@ -1966,6 +1970,46 @@ fn mpmc_close_vs_abandon_rev() {
     mpmc_close_vs_abandon_v(true)
 }
 
+/// The first poll of a send future on a full channel races with close(): afterwards the future
+/// has failed with its own value, or is pending and has been woken (and then fails).
+fn mpmc_close_vs_first_send_poll(cap: usize) {
+    let (tx, rx) = sh::generic_channel::<LoomRaw, u32, FixedHeapBuf<u32>>(cap);
+    let _ = rx.try_receive();
+    if cap > 0 {
+        tx.try_send(1).unwrap();
+    }
+    let mut f = Box::pin(tx.send(2));
+    let (w, c) = counting_waker();
+    let tx2 = tx.clone();
+    let h = spawn(move || {
+        let _ = tx2.close();
+    });
+    let first = f.as_mut().poll(&mut Context::from_waker(&w));
+    h.join().unwrap();
+    let res = match first {
+        Poll::Ready(r) => r,
+        Poll::Pending => {
+            assert!(c.load(Ordering::SeqCst) > 0, "C10: the channel is closed but the pending send future has not been woken");
+            match f.as_mut().poll(&mut Context::from_waker(&w)) {
+                Poll::Ready(r) => r,
+                Poll::Pending => panic!("C11: a send future stays pending on a closed channel"),
+            }
+        }
+    };
+    match res {
+        Err(e) => assert_eq!(e.0, 2, "C08: the rejected send must hand back its own value"),
+        Ok(()) => panic!("C11: a send that could not be accepted before close() (the buffer was full) succeeded"),
+    }
+    drop(f);
+    let _keep = rx;
+}
+fn mpmc_close_vs_first_send_poll_cap0() {
+    mpmc_close_vs_first_send_poll(0)
+}
+fn mpmc_close_vs_first_send_poll_cap1() {
+    mpmc_close_vs_first_send_poll(1)
+}
+
 /// two threads close the channel: once close() has returned (with either status) on a thread,
 /// a send from that thread must fail
 fn mpmc_double_close() {
@@ -2611,6 +2655,8 @@ const SCENARIOS: &[(&str, &str, Scenario)] = &[
     ("timer_many_vs_abandon", "C01,C15", timer_many_vs_abandon),
     ("bcast_clone_exclusive", "C12,C16", bcast_clone_exclusive),
     ("state_clone_exclusive", "C13,C16", state_clone_exclusive),
+    ("mpmc_close_vs_first_send_poll_cap0", "wk:C08,C10,C11", mpmc_close_vs_first_send_poll_cap0),
+    ("mpmc_close_vs_first_send_poll_cap1", "wk:C08,C10,C11", mpmc_close_vs_first_send_poll_cap1),
     ("mpmc_double_close", "hook:C11", mpmc_double_close),
     ("mpmc_orphan_recv", "hook:wk:C10,C11", mpmc_orphan_recv),
     ("mpmc_orphan_send", "hook:wk:C08,C10,C11", mpmc_orphan_send),
